@@ -110,8 +110,10 @@ class Flow:
             pw = f'pw-{name}'
             argv = ['add-key', '-r', self.repo, '-o', keyfile, '-q', '--ignore-config']
             pu = f['users'][parent]
+            # cheap key derivation everywhere (the default scrypt cost is 1 GiB and seconds per command)
+            argv += ['--encryption.kdf.n', r.choice([2, 4, 8])] if r.random() < 0.8 else ['--encryption.kdf.name', 'blake2b']
             if mode == 'independent':
-                argv += ['-n', pw] + (['--encryption.kdf.n', 2] if r.random() < 0.5 else [])
+                argv += ['-n', pw]
                 if r.random() < 0.5:
                     argv += ['-K', pu['keyfile'], '-p', pu['password']]       # irrelevant for an independent key, but allowed
             elif mode == 'shared':
